@@ -211,6 +211,27 @@ Fixpoint in_box (b : list row) (x : list N) : bool :=
   | _, _ => false
   end.
 
+(* ---------------------------------------------------------------- distance in parameter space *)
+
+(* One side of a stored curve against one side of the generator: slope difference x how far the temperature range
+   reaches beyond the generator's balance point + stored slope x balance-point difference + stored slope x smoothing
+   length.  bp_ref is the balance point of the stored side's asymptote (after undoing the smoothing shift). *)
+Definition side_gap_n (beta k bp_ref b_beta b_bp dist : N) : N :=
+  n_abs (b_beta - beta) * dist + beta * n_abs (b_bp - bp_ref) + beta * k.
+
+(* a bound, uniform over Tlo <= T <= Thi, of |stored curve - generating curve| computed from the effective 7-vector
+   that full_model is called with (Proofs/RecoveryProofs.v uniform_gap) *)
+Definition param_gap (x : fullx N) (p : building) (Tlo Thi : N) : N :=
+  n_abs (x_intercept x - b_base p)
+  + side_gap_n (x_hdd_beta x) (x_hdd_k x) (x_hdd_bp x - x_hdd_k x) (b_hbeta p) (b_hbp p) (npos (b_hbp p - Tlo))
+  + side_gap_n (x_cdd_beta x) (x_cdd_k x) (x_cdd_bp x + x_cdd_k x) (b_cbeta p) (b_cbp p) (npos (Thi - b_cbp p)).
+
+(* the balance point of a side without load is immaterial: take the stored side's own *)
+Definition free_bp (p : building) (x : fullx N) : building :=
+  Build_building (b_base p)
+    (b_hbeta p) (if b_hbeta p =? zero then x_hdd_bp x - x_hdd_k x else b_hbp p)
+    (b_cbeta p) (if b_cbeta p =? zero then x_cdd_bp x + x_cdd_k x else b_cbp p).
+
 End Recovery.
 
 Arguments b_base {N} _.
